@@ -1,7 +1,9 @@
 // extract is the translator part of the model/source tie: it parses the anchored Go files of
 // /repo with go/parser and regenerates FurikoModel/Generated/Facts.lean (finite tables and
-// constants the Lean model and theorems consume).  It recognises only rigid syntactic shapes
-// and fails loudly when one is no longer found.
+// constants the Lean model and theorems consume).  It is strict about what the recognised code
+// does and tolerant about how it is written (norm.go); a shape that is no longer recognised is a
+// loud failure of the named section the fact belongs to (sections.go), reported in the status
+// file; the process exits non-zero only for I/O errors.
 package main
 
 import (
@@ -19,22 +21,25 @@ import (
 )
 
 var (
-	repo  string
-	fails []string
-	fset  = token.NewFileSet()
-	files = map[string]*ast.File{}
+	repo      string
+	fset      = token.NewFileSet()
+	files     = map[string]*ast.File{}
+	parseErrs = map[string]error{}
 )
 
-func failf(format string, a ...interface{}) { fails = append(fails, fmt.Sprintf(format, a...)) }
-
+// parse is cached; a file that does not parse fails every section that reads it.
 func parse(rel string) *ast.File {
 	if f, ok := files[rel]; ok {
+		if f == nil {
+			failf("cannot parse %s: %v", rel, parseErrs[rel])
+		}
 		return f
 	}
 	f, err := parser.ParseFile(fset, filepath.Join(repo, rel), nil, parser.ParseComments)
 	if err != nil {
 		failf("cannot parse %s: %v", rel, err)
 		files[rel] = nil
+		parseErrs[rel] = err
 		return nil
 	}
 	files[rel] = f
@@ -184,14 +189,6 @@ func returnInt(rel, recv, name string) int64 {
 	return intLit(rs.Results[0], rel+":"+name)
 }
 
-// switchCases: for a func whose body contains a switch on an expression, returns for each
-// case clause the list of case identifiers and the returned identifier/literal (if the clause
-// body is a single return) or "fallthrough"/"".
-type caseClause struct {
-	Labels []string
-	Result string
-}
-
 func exprName(e ast.Expr) string {
 	switch x := e.(type) {
 	case *ast.Ident:
@@ -202,52 +199,6 @@ func exprName(e ast.Expr) string {
 		return x.Value
 	}
 	return "?"
-}
-
-func firstSwitch(fd *ast.FuncDecl) *ast.SwitchStmt {
-	var sw *ast.SwitchStmt
-	ast.Inspect(fd, func(n ast.Node) bool {
-		if s, ok := n.(*ast.SwitchStmt); ok && sw == nil {
-			sw = s
-		}
-		return sw == nil
-	})
-	return sw
-}
-
-func switchCases(rel, recv, name string) []caseClause {
-	fd := funcDecl(rel, recv, name)
-	if fd == nil {
-		return nil
-	}
-	sw := firstSwitch(fd)
-	if sw == nil {
-		failf("%s: no switch in %s", rel, name)
-		return nil
-	}
-	var out []caseClause
-	for _, st := range sw.Body.List {
-		cc := st.(*ast.CaseClause)
-		c := caseClause{}
-		if cc.List == nil {
-			c.Labels = []string{"default"}
-		}
-		for _, l := range cc.List {
-			c.Labels = append(c.Labels, exprName(l))
-		}
-		if len(cc.Body) == 1 {
-			switch b := cc.Body[0].(type) {
-			case *ast.ReturnStmt:
-				if len(b.Results) == 1 {
-					c.Result = exprName(b.Results[0])
-				}
-			case *ast.BranchStmt:
-				c.Result = "fallthrough"
-			}
-		}
-		out = append(out, c)
-	}
-	return out
 }
 
 // stringConsts returns name -> value for all string constants of the given type in a file.
@@ -327,156 +278,287 @@ type facts struct {
 
 func leanStr(s string) string { return strconv.Quote(s) }
 
-func main() {
-	leanOut := flag.String("lean", "", "output Facts.lean")
-	jsonOut := flag.String("json", "", "output facts.json")
-	flag.StringVar(&repo, "repo", "/repo", "repository root")
-	flag.Parse()
+const phaseFile = "pkg/execution/util/job/phase.go"
 
-	var f facts
-	f.DefaultCronTimezone = strLit(constExpr("pkg/config/defaults.go", "DefaultCronTimezone"), "DefaultCronTimezone")
-	f.DefaultCronMaxDowntimeSeconds = intLit(constExpr("pkg/config/defaults.go", "DefaultCronMaxDowntimeThresholdSeconds"), "DefaultCronMaxDowntimeThresholdSeconds")
-	f.DefaultCronMaxMissedSchedules = intLit(constExpr("pkg/config/defaults.go", "DefaultCronMaxMissedSchedules"), "DefaultCronMaxMissedSchedules")
-	f.CronFlushLimit = forCondLimit("pkg/execution/controllers/croncontroller/cron_worker.go", "CronWorker", "refreshUpdatedJobConfigs", "flushes")
-	f.CronUpdatedConfigsBuffer = intLit(constExpr("pkg/execution/controllers/croncontroller/controller.go", "updatedConfigsBufferSize"), "updatedConfigsBufferSize")
-	if regs := handlerRegistrations("pkg/execution/controllers/croncontroller/informer.go"); len(regs) == 1 {
-		f.CronHandlers = regs[0]
-	} else if regs != nil {
-		failf("croncontroller/informer.go: expected exactly one handler registration, found %d", len(regs))
+// isTerminalFacts: JobPhase.IsTerminal as a decision list on the receiver: which phase
+// constants return true, which are listed explicitly as returning false; everything else (the
+// default) must return false.
+func isTerminalFacts(f *facts) {
+	fd := funcDecl(jobTypesFile, "JobPhase", "IsTerminal")
+	if fd == nil || fd.Body == nil {
+		return
 	}
-	f.MaxRequeues = map[string]int64{
-		"cron":        returnInt("pkg/execution/controllers/croncontroller/reconciler.go", "Reconciler", "MaxRequeues"),
-		"job":         returnInt("pkg/execution/controllers/jobcontroller/reconciler.go", "Reconciler", "MaxRequeues"),
-		"jobconfig":   returnInt("pkg/execution/controllers/jobconfigcontroller/reconciler.go", "Reconciler", "MaxRequeues"),
-		"queueConfig": returnInt("pkg/execution/controllers/jobqueuecontroller/reconciler_perjobconfig.go", "PerConfigReconciler", "MaxRequeues"),
-		"queueIndep":  returnInt("pkg/execution/controllers/jobqueuecontroller/reconciler_independent.go", "IndependentReconciler", "MaxRequeues"),
+	ds, term, err := decisionList(fd.Body.List)
+	if err != nil {
+		failf("JobPhase.IsTerminal: %v", err)
+		return
 	}
-	// JobPhase.IsTerminal
-	f.PhaseValues = typedStringConsts("apis/execution/v1alpha1/job_types.go", "JobPhase")
-	f.ResultValues = typedStringConsts("apis/execution/v1alpha1/job_types.go", "JobResult")
-	cases := switchCases("apis/execution/v1alpha1/job_types.go", "JobPhase", "IsTerminal")
-	pendingFallthrough := []string{}
-	for _, c := range cases {
-		switch c.Result {
-		case "true":
-			f.TerminalPhases = append(f.TerminalPhases, c.Labels...)
-		case "false":
-			for _, l := range append(pendingFallthrough, c.Labels...) {
-				if l != "default" {
-					f.NonTerminalPhases = append(f.NonTerminalPhases, l)
-				}
-			}
-			pendingFallthrough = nil
-		case "fallthrough":
-			pendingFallthrough = append(pendingFallthrough, c.Labels...)
-		default:
-			failf("JobPhase.IsTerminal: unrecognised case body for %v", c.Labels)
-		}
+	if !term {
+		failf("JobPhase.IsTerminal: does not end in an unconditional return")
+		return
 	}
-	// GetPhase: the switch on Finished.Result
-	for _, c := range switchCases("pkg/execution/util/job/phase.go", "", "GetPhase") {
-		if len(c.Labels) == 1 && c.Labels[0] == "default" {
-			f.ResultDefaultPhase = c.Result
+	isRecv := isIdentNamed(recvVar(fd))
+	for i, d := range ds {
+		res, ok := singleResult(d)
+		if !ok || (res != "true" && res != "false") {
+			failf("JobPhase.IsTerminal: unrecognised case body for %s", pathText(d.Path))
 			continue
 		}
-		for _, l := range c.Labels {
-			f.ResultToPhase = append(f.ResultToPhase, [2]string{l, c.Result})
+		if len(d.Path) == 0 {
+			if i != len(ds)-1 || res != "false" {
+				failf("JobPhase.IsTerminal: the default does not return false")
+			}
+			continue
+		}
+		if len(d.Path) != 1 || d.Path[0].Init != nil {
+			failf("JobPhase.IsTerminal: nested guard %s", pathText(d.Path))
+			continue
+		}
+		for _, g := range d.Path[0].Disj {
+			_, label, ok := eqLabel(g, isRecv)
+			if !ok {
+				failf("JobPhase.IsTerminal: guard `%s` is not a comparison of the receiver with a phase constant", printNode(g))
+				continue
+			}
+			if res == "true" {
+				f.TerminalPhases = append(f.TerminalPhases, exprName(label))
+			} else {
+				f.NonTerminalPhases = append(f.NonTerminalPhases, exprName(label))
+			}
+		}
+	}
+}
+
+// resultToPhaseFacts: the head of job.GetPhase, a chain on `<…>.Finished.Result` whose arms
+// return phase constants, with a default.
+func resultToPhaseFacts(f *facts) {
+	fd := funcDecl(phaseFile, "", "GetPhase")
+	if fd == nil || fd.Body == nil {
+		return
+	}
+	isResultTag := func(e ast.Expr) bool {
+		sel, ok := e.(*ast.SelectorExpr)
+		if !ok || sel.Sel.Name != "Result" {
+			return false
+		}
+		inner, ok := sel.X.(*ast.SelectorExpr)
+		return ok && inner.Sel.Name == "Finished"
+	}
+	list, idx := findChain(fd.Body.List, func(ch *chain) bool {
+		if len(ch.Arms) == 0 || len(ch.Arms[0].Disj) == 0 {
+			return false
+		}
+		_, _, ok := eqLabel(ch.Arms[0].Disj[0], isResultTag)
+		return ok
+	})
+	if list == nil {
+		failf("%s: no switch / if chain on Finished.Result in GetPhase", phaseFile)
+		return
+	}
+	ds, term, err := decisionList(list[idx:])
+	if err != nil {
+		failf("GetPhase: result chain: %v", err)
+		return
+	}
+	if !term {
+		failf("GetPhase: default case of the result switch not found")
+		return
+	}
+	tagText := ""
+	for i, d := range ds {
+		res, ok := singleResult(d)
+		if !ok {
+			failf("GetPhase: result chain: arm %s is not a single return of a constant", pathText(d.Path))
+			continue
+		}
+		if len(d.Path) == 0 {
+			if i != len(ds)-1 {
+				failf("GetPhase: result chain: default is not last")
+			}
+			f.ResultDefaultPhase = res
+			continue
+		}
+		if len(d.Path) != 1 || d.Path[0].Init != nil {
+			failf("GetPhase: result chain: nested guard %s", pathText(d.Path))
+			continue
+		}
+		for _, g := range d.Path[0].Disj {
+			tag, label, ok := eqLabel(g, isResultTag)
+			if !ok {
+				failf("GetPhase: result chain: guard `%s` is not on Finished.Result", printNode(g))
+				continue
+			}
+			if t := printNode(tag); tagText == "" {
+				tagText = t
+			} else if t != tagText {
+				failf("GetPhase: result chain compares different expressions (%s, %s)", tagText, t)
+			}
+			f.ResultToPhase = append(f.ResultToPhase, [2]string{exprName(label), res})
 		}
 	}
 	if f.ResultDefaultPhase == "" {
 		failf("GetPhase: default case of the result switch not found")
 	}
+}
 
-	f.Config = extractConfig()
-	f.Options = extractOptionsFacts()
-
-	if len(fails) > 0 {
-		for _, m := range fails {
-			fmt.Fprintln(os.Stderr, "extract:", m)
+func coreFacts(b *strings.Builder, f *facts) {
+	section("cron-constants", func() {
+		f.DefaultCronTimezone = strLit(constExpr("pkg/config/defaults.go", "DefaultCronTimezone"), "DefaultCronTimezone")
+		f.DefaultCronMaxDowntimeSeconds = intLit(constExpr("pkg/config/defaults.go", "DefaultCronMaxDowntimeThresholdSeconds"), "DefaultCronMaxDowntimeThresholdSeconds")
+		f.DefaultCronMaxMissedSchedules = intLit(constExpr("pkg/config/defaults.go", "DefaultCronMaxMissedSchedules"), "DefaultCronMaxMissedSchedules")
+		f.CronFlushLimit = forCondLimit("pkg/execution/controllers/croncontroller/cron_worker.go", "CronWorker", "refreshUpdatedJobConfigs", "flushes")
+		f.CronUpdatedConfigsBuffer = intLit(constExpr("pkg/execution/controllers/croncontroller/controller.go", "updatedConfigsBufferSize"), "updatedConfigsBufferSize")
+	})
+	section("cron-handlers", func() {
+		if regs := handlerRegistrations("pkg/execution/controllers/croncontroller/informer.go"); len(regs) == 1 {
+			f.CronHandlers = regs[0]
+		} else if regs != nil {
+			failf("croncontroller/informer.go: expected exactly one handler registration, found %d", len(regs))
 		}
-		os.Exit(1)
-	}
-
-	var b strings.Builder
-	b.WriteString("/- GENERATED by harness/cmd/extract from /repo's working tree on every run. Do not edit. -/\n")
-	b.WriteString("namespace Furiko.Facts\n\n")
-	fmt.Fprintf(&b, "def defaultCronTimezone : String := %s\n", leanStr(f.DefaultCronTimezone))
-	fmt.Fprintf(&b, "def defaultCronMaxDowntimeSeconds : Int := %d\n", f.DefaultCronMaxDowntimeSeconds)
-	fmt.Fprintf(&b, "def defaultCronMaxMissedSchedules : Int := %d\n", f.DefaultCronMaxMissedSchedules)
-	fmt.Fprintf(&b, "def cronFlushLimit : Nat := %d\n", f.CronFlushLimit)
-	fmt.Fprintf(&b, "def cronUpdatedConfigsBuffer : Nat := %d\n", f.CronUpdatedConfigsBuffer)
-	fmt.Fprintf(&b, "/-- croncontroller InformerWorker.Init registers AddFunc / UpdateFunc / DeleteFunc -/\n")
-	fmt.Fprintf(&b, "def cronHandlerAdd : Bool := %v\ndef cronHandlerUpdate : Bool := %v\ndef cronHandlerDelete : Bool := %v\n", f.CronHandlers[0], f.CronHandlers[1], f.CronHandlers[2])
-	keys := make([]string, 0)
-	for k := range f.MaxRequeues {
-		keys = append(keys, k)
-	}
-	sort.Strings(keys)
-	b.WriteString("/-- `MaxRequeues()` of every reconciler -/\ndef maxRequeues : List (String × Int) := [")
-	for i, k := range keys {
-		if i > 0 {
-			b.WriteString(", ")
+	})
+	f.MaxRequeues = map[string]int64{}
+	section("max-requeues", func() {
+		for _, r := range [][3]string{
+			{"cron", "pkg/execution/controllers/croncontroller/reconciler.go", "Reconciler"},
+			{"job", "pkg/execution/controllers/jobcontroller/reconciler.go", "Reconciler"},
+			{"jobconfig", "pkg/execution/controllers/jobconfigcontroller/reconciler.go", "Reconciler"},
+			{"queueConfig", "pkg/execution/controllers/jobqueuecontroller/reconciler_perjobconfig.go", "PerConfigReconciler"},
+			{"queueIndep", "pkg/execution/controllers/jobqueuecontroller/reconciler_independent.go", "IndependentReconciler"},
+		} {
+			f.MaxRequeues[r[0]] = returnInt(r[1], r[2], "MaxRequeues")
 		}
-		fmt.Fprintf(&b, "(%s, %d)", leanStr(k), f.MaxRequeues[k])
+	})
+	section("phases", func() {
+		f.PhaseValues = typedStringConsts(jobTypesFile, "JobPhase")
+		isTerminalFacts(f)
+	})
+	var resPhaseValues map[string]string
+	section("result-to-phase", func() {
+		resPhaseValues = typedStringConsts(jobTypesFile, "JobPhase")
+		f.ResultValues = typedStringConsts(jobTypesFile, "JobResult")
+		resultToPhaseFacts(f)
+	})
+
+	emit(b, "cron-constants", func(b *strings.Builder) {
+		fmt.Fprintf(b, "def defaultCronTimezone : String := %s\n", leanStr(f.DefaultCronTimezone))
+		fmt.Fprintf(b, "def defaultCronMaxDowntimeSeconds : Int := %d\n", f.DefaultCronMaxDowntimeSeconds)
+		fmt.Fprintf(b, "def defaultCronMaxMissedSchedules : Int := %d\n", f.DefaultCronMaxMissedSchedules)
+		fmt.Fprintf(b, "def cronFlushLimit : Nat := %s\n", natLit(f.CronFlushLimit, "cronFlushLimit"))
+		fmt.Fprintf(b, "def cronUpdatedConfigsBuffer : Nat := %s\n", natLit(f.CronUpdatedConfigsBuffer, "cronUpdatedConfigsBuffer"))
+	})
+	emit(b, "cron-handlers", func(b *strings.Builder) {
+		fmt.Fprintf(b, "/-- croncontroller InformerWorker.Init registers AddFunc / UpdateFunc / DeleteFunc -/\n")
+		fmt.Fprintf(b, "def cronHandlerAdd : Bool := %v\ndef cronHandlerUpdate : Bool := %v\ndef cronHandlerDelete : Bool := %v\n", f.CronHandlers[0], f.CronHandlers[1], f.CronHandlers[2])
+	})
+	emit(b, "max-requeues", func(b *strings.Builder) {
+		keys := make([]string, 0)
+		for k := range f.MaxRequeues {
+			keys = append(keys, k)
+		}
+		sort.Strings(keys)
+		b.WriteString("/-- `MaxRequeues()` of every reconciler -/\ndef maxRequeues : List (String × Int) := [")
+		for i, k := range keys {
+			if i > 0 {
+				b.WriteString(", ")
+			}
+			fmt.Fprintf(b, "(%s, %d)", leanStr(k), f.MaxRequeues[k])
+		}
+		b.WriteString("]\n")
+	})
+	need := func(vals map[string]string, x string) string {
+		v, ok := vals[x]
+		if !ok {
+			failf("constant %s has no string value", x)
+		}
+		return v
 	}
-	b.WriteString("]\n")
 	ls := func(xs []string, vals map[string]string) string {
 		var parts []string
 		for _, x := range xs {
-			v, ok := vals[x]
-			if !ok {
-				failf("constant %s has no string value", x)
-			}
-			parts = append(parts, leanStr(v))
+			parts = append(parts, leanStr(need(vals, x)))
 		}
 		return "[" + strings.Join(parts, ", ") + "]"
 	}
-	fmt.Fprintf(&b, "/-- `JobPhase.IsTerminal` returns true exactly for these phase values -/\ndef terminalPhases : List String := %s\n", ls(f.TerminalPhases, f.PhaseValues))
-	fmt.Fprintf(&b, "def nonTerminalPhases : List String := %s\n", ls(f.NonTerminalPhases, f.PhaseValues))
-	var allPhases []string
-	for k := range f.PhaseValues {
-		allPhases = append(allPhases, k)
-	}
-	sort.Strings(allPhases)
-	fmt.Fprintf(&b, "def allPhases : List String := %s\n", ls(allPhases, f.PhaseValues))
-	b.WriteString("/-- head switch of `job.GetPhase`: finished result value ↦ phase value -/\ndef resultToPhase : List (String × String) := [")
-	for i, p := range f.ResultToPhase {
-		if i > 0 {
-			b.WriteString(", ")
+	sortedKeys := func(m map[string]string) []string {
+		var ks []string
+		for k := range m {
+			ks = append(ks, k)
 		}
-		fmt.Fprintf(&b, "(%s, %s)", leanStr(f.ResultValues[p[0]]), leanStr(f.PhaseValues[p[1]]))
+		sort.Strings(ks)
+		return ks
 	}
-	b.WriteString("]\n")
-	fmt.Fprintf(&b, "def resultDefaultPhase : String := %s\n", leanStr(f.PhaseValues[f.ResultDefaultPhase]))
-	var allResults []string
-	for k := range f.ResultValues {
-		allResults = append(allResults, k)
-	}
-	sort.Strings(allResults)
-	fmt.Fprintf(&b, "def allResults : List String := %s\n", ls(allResults, f.ResultValues))
-	cronrecFacts(&b) // C02 facts (cronrec.go)
-	jcstatusFacts(&b) // C15 facts (jcstatus.go)
-	taskfnFacts(&b)
-	retryFacts(&b) // C20 facts (retry_facts.go)
+	emit(b, "phases", func(b *strings.Builder) {
+		fmt.Fprintf(b, "/-- `JobPhase.IsTerminal` returns true exactly for these phase values -/\ndef terminalPhases : List String := %s\n", ls(f.TerminalPhases, f.PhaseValues))
+		fmt.Fprintf(b, "def nonTerminalPhases : List String := %s\n", ls(f.NonTerminalPhases, f.PhaseValues))
+		fmt.Fprintf(b, "def allPhases : List String := %s\n", ls(sortedKeys(f.PhaseValues), f.PhaseValues))
+	})
+	emit(b, "result-to-phase", func(b *strings.Builder) {
+		b.WriteString("/-- head switch of `job.GetPhase`: finished result value ↦ phase value -/\ndef resultToPhase : List (String × String) := [")
+		for i, p := range f.ResultToPhase {
+			if i > 0 {
+				b.WriteString(", ")
+			}
+			fmt.Fprintf(b, "(%s, %s)", leanStr(need(f.ResultValues, p[0])), leanStr(need(resPhaseValues, p[1])))
+		}
+		b.WriteString("]\n")
+		dflt := ""
+		if f.ResultDefaultPhase != "" {
+			dflt = need(resPhaseValues, f.ResultDefaultPhase)
+		}
+		fmt.Fprintf(b, "def resultDefaultPhase : String := %s\n", leanStr(dflt))
+		fmt.Fprintf(b, "def allResults : List String := %s\n", ls(sortedKeys(f.ResultValues), f.ResultValues))
+	})
+}
+
+func main() {
+	leanOut := flag.String("lean", "", "output Facts.lean")
+	jsonOut := flag.String("json", "", "output facts.json")
+	statusOut := flag.String("status", "", "output status JSON: sections, their defs, failed sections")
+	flag.StringVar(&repo, "repo", "/repo", "repository root")
+	flag.Parse()
+
+	var f facts
+	var b strings.Builder
+	b.WriteString("/- GENERATED by harness/cmd/extract from /repo's working tree on every run. Do not edit. -/\n")
+	b.WriteString("namespace Furiko.Facts\n\n")
+	coreFacts(&b, &f)
+	cronrecFacts(&b)    // C02 facts (cronrec.go)
+	jcstatusFacts(&b)   // C15 facts (jcstatus.go)
+	taskfnFacts(&b)     // C08 C10 C11 C12 facts (taskfn_facts.go)
+	retryFacts(&b)      // C20 facts (retry_facts.go)
 	validationFacts(&b) // C17 facts (validation_facts.go)
-	mutationFacts(&b) // C16 facts (mutation_facts.go)
-	f.Config.emit(&b)
-	writeOptionsFacts(&b, f.Options)
+	mutationFacts(&b)   // C16 facts (mutation_facts.go)
+	f.Config = configSectionFacts(&b)
+	f.Options = optionsSectionFacts(&b)
 	b.WriteString("\nend Furiko.Facts\n")
-	if len(fails) > 0 {
-		for _, m := range fails {
-			fmt.Fprintln(os.Stderr, "extract:", m)
+
+	st := buildStatus()
+	for _, fs := range st.Failed {
+		for _, m := range fs.Msgs {
+			fmt.Fprintf(os.Stderr, "extract: [%s] %s\n", fs.Section, m)
 		}
-		os.Exit(1)
 	}
+	ioErr := false
 	if *leanOut != "" {
 		if err := os.WriteFile(*leanOut, []byte(b.String()), 0o644); err != nil {
 			fmt.Fprintln(os.Stderr, err)
-			os.Exit(1)
+			ioErr = true
 		}
 	}
 	if *jsonOut != "" {
 		js, _ := json.MarshalIndent(f, "", " ")
-		_ = os.WriteFile(*jsonOut, js, 0o644)
+		if err := os.WriteFile(*jsonOut, js, 0o644); err != nil {
+			fmt.Fprintln(os.Stderr, err)
+			ioErr = true
+		}
+	}
+	if *statusOut != "" {
+		if err := writeStatus(*statusOut, st); err != nil {
+			fmt.Fprintln(os.Stderr, err)
+			ioErr = true
+		}
+	}
+	if ioErr {
+		os.Exit(1)
 	}
 }
